@@ -388,7 +388,5 @@ class CouplingSimulationMaximumStep(CouplingSimulationWithJumpTimes):
             coarse_all_values,
         ) = super().simulate_jumps_with_coupling()
 
-        if jump_times.size == 0:
-            return jump_times, fine_all_values, coarse_all_values
-        else:
-            return self.build_finer_grid(jump_times, fine_all_values, coarse_all_values)
+        # also without any jump: the step from 0 to the maturity is capped
+        return self.build_finer_grid(jump_times, fine_all_values, coarse_all_values)
